@@ -444,7 +444,7 @@ package ggql
 //@   requires p.exe != nil
 
 //@ func (*exeParser).readFragmentDef
-//@   props C03
+//@   props C03 C10
 //@   check panic {C03}
 //@   requires p != nil
 //@   requires[root] p.root != nil
@@ -453,6 +453,8 @@ package ggql
 //@   ensures[no-growth] scanM(p.parser) <= old(scanM(p.parser))
 //@   requires p.exe != nil
 //@   ensures[shape] err == nil ==> frag != nil
+//@   -- C10: a fragment definition on a type that is not defined is refused (as readFragment refuses `... on Nope`)
+//@   ensures[condition-defined]{C10} err == nil ==> !is(frag.Condition, *Ref)
 
 //@ func (*exeParser).readVarDefs
 //@   props C03
